@@ -137,8 +137,8 @@ PROPS = {
     ),
     "C14": dict(
         streams=[dict(mode="ir", quick=1500, thorough=40000, workers=14, driver_workers=8, env={"VH_BAD_VALIDATORS": "1"}),
-                 dict(mode="proj", quick=42, thorough=800, workers=14, driver_workers=2, timeout=3000, env={"VH_TYPES": "1"}),
-                 dict(mode="proj", quick=56, thorough=1100, workers=14, driver_workers=2, timeout=3000, env={"VH_GENERIC": "1", "VH_CRASHY": "1"}),
+                 dict(mode="proj", quick=42, thorough=800, workers=14, driver_workers=2, timeout=3000, env={"VH_TYPES": "1", "VH_ARRAYS": "1", "VH_OP_TIMEOUT": "120"}),
+                 dict(mode="proj", quick=56, thorough=1100, workers=14, driver_workers=2, timeout=3000, env={"VH_GENERIC": "1", "VH_CRASHY": "1", "VH_OP_TIMEOUT": "120"}),
                  dict(mode="cli", quick=50, thorough=600, workers=8, driver_workers=1, timeout=3000, env={"VH_GENERIC": "1"})],
         rule=IR_RULE + " with arbitrary / malformed validator tags on a third of the rules (unparsable, negative, empty and overflowing numbers, empty oneof/enum, unknown rules, stray separators, unicode) and struct fields referring to structs declared later (unresolved $ref while emitting); a recovered panic, a dead worker or a timeout is a failure; the `cli` stream runs the REAL program (built from the working tree) in child processes - bare, `generate spec`, `generate routes`, `generate spec-and-routes` - on well-formed, perturbed and config-less projects and evaluates the decidable contract `Gleece.Cli.Contract` (bounded time, no panic text, exit 0 with the command's artifacts or non-zero with a message) and the agreement of the exit status with the in-process verdict of the same command; non-trivial = every case (each exercises both emitters); distinct = distinct document",
         trusted_base=COMMON_TB + IR_TB + ["translator harness/cmd/vh/extract_rules.go (go/ast over both converters)"],
